@@ -290,7 +290,8 @@ func (h *pfHarness) Op(f []string) string {
 		sc.listener(balancer.SubConnState{ConnectivityState: st, ConnectionError: pfErr(f[3])})
 	case "health":
 		sc := h.scByTok(f[1])
-		if sc == nil || sc.health == nil || sc.shut || sc.raw != connectivity.Ready {
+		// (also for a SubConn that was shut down meanwhile: a queued health update can still arrive)
+		if sc == nil || sc.health == nil || sc.raw != connectivity.Ready {
 			return "bad-op"
 		}
 		sc.health(balancer.SubConnState{ConnectivityState: lbState(f[2]), ConnectionError: pfErr(f[3])})
